@@ -127,8 +127,52 @@ def desugar(tree: ast.Module) -> ast.Module:
     return tree
 
 
+def _bool_join(stmt: ast.stmt) -> Optional[ast.stmt]:
+    """ `if T: v = True else: v = E` (what inlining a predicate with an early `return True` leaves behind) is
+        `v = T or E`; likewise for the three other placements of a boolean constant """
+    if not (isinstance(stmt, ast.If) and len(stmt.body) == 1 and len(stmt.orelse) == 1):
+        return None
+    a, b = stmt.body[0], stmt.orelse[0]
+    if not all(isinstance(x, ast.Assign) and len(x.targets) == 1 and isinstance(x.targets[0], ast.Name) for x in (a, b)):
+        return None
+    if a.targets[0].id != b.targets[0].id:  # type: ignore[attr-defined]
+        return None
+
+    def const(x: ast.stmt):
+        v = x.value  # type: ignore[attr-defined]
+        return v.value if isinstance(v, ast.Constant) and isinstance(v.value, bool) else None
+    ca, cb = const(a), const(b)
+    neg = ast.UnaryOp(op=ast.Not(), operand=stmt.test)
+    if ca is True and cb is None:
+        value: ast.expr = ast.BoolOp(op=ast.Or(), values=[stmt.test, b.value])  # type: ignore[attr-defined]
+    elif ca is False and cb is None:
+        value = ast.BoolOp(op=ast.And(), values=[neg, b.value])  # type: ignore[attr-defined]
+    elif cb is True and ca is None:
+        value = ast.BoolOp(op=ast.Or(), values=[neg, a.value])  # type: ignore[attr-defined]
+    elif cb is False and ca is None:
+        value = ast.BoolOp(op=ast.And(), values=[stmt.test, a.value])  # type: ignore[attr-defined]
+    else:
+        return None
+    new = ast.Assign(targets=[a.targets[0]], value=value)  # type: ignore[attr-defined]
+    return ast.fix_missing_locations(ast.copy_location(new, stmt))
+
+
+def _join_block(stmts: List[ast.stmt]) -> List[ast.stmt]:
+    out: List[ast.stmt] = []
+    for stmt in stmts:
+        for field in ("body", "orelse", "finalbody"):
+            sub = getattr(stmt, field, None)
+            if isinstance(sub, list) and sub and isinstance(sub[0], ast.stmt):
+                setattr(stmt, field, _join_block(sub))
+        for handler in getattr(stmt, "handlers", []) or []:
+            handler.body = _join_block(handler.body)
+        joined = _bool_join(stmt)
+        out.append(joined if joined is not None else stmt)
+    return out
+
+
 def desugar_function(func: ast.AST) -> ast.AST:
-    """ the same normalisation for a function produced by the inliner """
-    func.body = _block(func.body)  # type: ignore[attr-defined]
+    """ the same normalisation for a function produced by the inliner, plus the boolean joins inlining leaves behind """
+    func.body = _join_block(_block(func.body))  # type: ignore[attr-defined]
     ast.fix_missing_locations(func)
     return func
